@@ -3,6 +3,7 @@ package sim
 import (
 	"bytes"
 	"fmt"
+	"strconv"
 	"strings"
 	"testing"
 
@@ -85,6 +86,7 @@ func (c06) Gen(seed uint64, idx int, tier string) *Scenario {
 		}
 	case 0:
 		cfg := gen.DefaultCfg(r)
+		cfg.SmallInts = true // large literals have a class of their own; here they would only feed the exclusion filter
 		p := gen.Generate(r, cfg)
 		var kind string
 		sc.Src, kind = gen.Damage(r, p)
@@ -131,8 +133,102 @@ func (c06) Gen(seed uint64, idx int, tier string) *Scenario {
 	return sc
 }
 
+// hugeResult is the conservative pre-filter for the inputs the property excludes: those whose
+// legitimate result would itself exhaust memory (string repetition beyond 2^20 bytes). It
+// never looks at what bcl does; it scans the source for integer literals next to a '*' and
+// bounds the product of the literal factors along any one chain of '*' times the size of the source (no string can start
+// out longer than the source). Counts that reach a '*' through a variable are not seen here:
+// those runs are stopped by the worker's address-space limit and classified by the parent
+// (out of memory in a source that contains a '*' is the excluded case, not a violation).
+func hugeResult(src []byte) bool {
+	type tk struct {
+		kind byte // 'i' int literal, 'n' identifier, '*' star, 'o' other
+		val  float64
+	}
+	var toks []tk
+	for i := 0; i < len(src); {
+		c := src[i]
+		switch {
+		case c >= '0' && c <= '9':
+			j := i
+			for j < len(src) && (src[j] >= '0' && src[j] <= '9' || src[j] >= 'a' && src[j] <= 'f' || src[j] >= 'A' && src[j] <= 'F' || src[j] == 'x' || src[j] == 'X' || src[j] == '.' || src[j] == '+' && j > i && (src[j-1] == 'e' || src[j-1] == 'E')) {
+				j++
+			}
+			lit := string(src[i:j])
+			v := 0.0
+			if u, err := strconv.ParseUint(lit, 0, 64); err == nil {
+				v = float64(u)
+			} else if f, err := strconv.ParseFloat(lit, 64); err == nil {
+				v = f
+			} else {
+				v = 1e30 // not a literal bcl will accept, but be conservative
+			}
+			toks = append(toks, tk{'i', v})
+			i = j
+		case c == '_' || c >= 'a' && c <= 'z' || c >= 'A' && c <= 'Z':
+			j := i
+			for j < len(src) && (src[j] == '_' || src[j] >= 'a' && src[j] <= 'z' || src[j] >= 'A' && src[j] <= 'Z' || src[j] >= '0' && src[j] <= '9') {
+				j++
+			}
+			toks = append(toks, tk{'n', 0})
+			i = j
+		case c == '"':
+			j := i + 1
+			for j < len(src) && src[j] != '"' && src[j] != '\n' {
+				if src[j] == '\\' {
+					j++
+				}
+				j++
+			}
+			toks = append(toks, tk{'o', 0})
+			i = j + 1
+		case c == '#':
+			for i < len(src) && src[i] != '\n' && src[i] != '\r' {
+				i++
+			}
+		case c == '*':
+			toks = append(toks, tk{'*', 0})
+			i++
+		case c == ' ' || c == '\t' || c == '\n' || c == '\r' || c == '(' || c == ')' || c == '+' || c == '-' || c == '\v' || c == '\f' || c >= 0x80:
+			i++ // layout, grouping and signs do not separate a factor from its '*'
+		default:
+			toks = append(toks, tk{'o', 0})
+			i++
+		}
+	}
+	// the largest product of literal factors along one chain of '*' (a * b * c ...)
+	fac := func(j int) float64 {
+		if j >= 0 && j < len(toks) && toks[j].kind == 'i' && toks[j].val > 1 {
+			return toks[j].val
+		}
+		return 1
+	}
+	worst, chain := 1.0, 1.0
+	for i, t := range toks {
+		if t.kind != '*' {
+			continue
+		}
+		if i >= 2 && toks[i-2].kind == '*' {
+			chain *= fac(i + 1) // continues the chain: the left operand was counted already
+		} else {
+			chain = fac(i-1) * fac(i+1)
+		}
+		if chain > worst {
+			worst = chain
+		}
+	}
+	return worst*float64(len(src)+1) > 1<<34
+}
+
 func (c06) Run(t *testing.T, sc *Scenario) *Outcome {
 	o := &Outcome{}
+	if hugeResult(sc.Src) {
+		// excluded by the property: the legitimate result may not fit in memory
+		o.Skipped = true
+		o.probe("excluded_possibly_huge_result", 1)
+		o.probe("excluded:"+sc.Class, 1)
+		return o
+	}
 	o.Hash = hash64(string(sc.Src))
 	o.Nontrivial = len(sc.Src) > 0
 	reached := false
@@ -150,6 +246,10 @@ func (c06) Run(t *testing.T, sc *Scenario) *Outcome {
 		_ = err
 		o.Evals++
 		if p != "" {
+			if strings.Contains(p, "Repeat output length overflow") && bytes.IndexByte(sc.Src, '*') >= 0 {
+				o.probe("excluded_result_too_large", 1) // the excluded case: the legitimate result does not fit
+				return
+			}
 			o.viol("C06", "panic", what+":"+normSig(p), fmt.Sprintf("%s panicked in the calling goroutine: %s", what, p), sc)
 		}
 	}
